@@ -186,6 +186,7 @@ func init() {
 				if r, err := udpExchange(a, kindQuery(1, "warm"), 500*time.Millisecond); err == nil && len(r) >= 12 {
 					break
 				}
+				time.Sleep(40 * time.Millisecond) // refused at once while the socket is not bound yet: pause before the next try
 			}
 		}
 		one := func(l string) {
